@@ -27,6 +27,11 @@ type From struct {
 	RP    string `json:"rp,omitempty"`
 	M     string `json:"m,omitempty"`
 	Where int    `json:"where"` // -1 none, else "v" > Where
+	// SharedGT k > 0: the (first) condition is .where(cond), cond being a lambda variable of the
+	// script ("v" > k-1) that the other from() nodes of the task with SharedGT use as well
+	SharedGT int `json:"sgt,omitempty"`
+	// W2 k > 0: a second .where(lambda: "v" != k-1) on the same from() (conditions are AND-ed)
+	W2 int `json:"w2,omitempty"`
 }
 
 type TaskDef struct {
@@ -57,7 +62,7 @@ type Case struct {
 	Ops       []Op      `json:"ops"`
 }
 
-const rule = "rapid: histories (<=25 steps) of start/stop/delete/restart of up to 4 stream tasks (1-3 from() nodes with db/rp/measurement/where filters, generated dbrp sets) and writes over 2 dbs x 2 rps x 3 measurements; 2 generated observer tasks plus a universal one run throughout; " +
+const rule = "rapid: histories (<=25 steps) of start/stop/delete/restart of up to 4 stream tasks (1-3 from() nodes with db/rp/measurement/where filters - conditions given inline or through a lambda variable shared by several from() nodes, one or two where() per node -, generated dbrp sets) and writes over 2 dbs x 2 rps x 3 measurements; 2 generated observer tasks plus a universal one run throughout; " +
 	"oracle: routing model (exact for observers; exactly-once/in-order/only-matching/nothing-missed for tasks started and stopped on the way); non-trivial = >=2 tasks with different selections enabled at once and >=1 start/stop between writes; distinct by case hash"
 
 var dbrpUniverse = []kapacitor.DBRP{{Database: "d0", RetentionPolicy: "r0"}, {Database: "d0", RetentionPolicy: "r1"}, {Database: "d1", RetentionPolicy: "r0"}, {Database: "d1", RetentionPolicy: "r1"}}
@@ -72,6 +77,10 @@ func genDef(t *rapid.T) TaskDef {
 		}
 	}
 	nf := rapid.IntRange(1, 3).Draw(t, "nfrom")
+	shared := 0
+	if rapid.IntRange(0, 3).Draw(t, "hasshared") == 0 {
+		shared = 1 + rapid.IntRange(0, 8).Draw(t, "shared")
+	}
 	for i := 0; i < nf; i++ {
 		f := From{Where: -1}
 		if rapid.IntRange(0, 3).Draw(t, "hasdb") == 0 {
@@ -85,6 +94,12 @@ func genDef(t *rapid.T) TaskDef {
 		}
 		if rapid.IntRange(0, 2).Draw(t, "haswhere") == 0 {
 			f.Where = rapid.IntRange(0, 8).Draw(t, "where")
+		}
+		if shared > 0 && rapid.IntRange(0, 2).Draw(t, "useshared") != 0 {
+			f.Where, f.SharedGT = -1, shared
+		}
+		if (f.Where >= 0 || f.SharedGT > 0) && rapid.IntRange(0, 2).Draw(t, "hasw2") == 0 {
+			f.W2 = 1 + rapid.IntRange(0, 9).Draw(t, "w2")
 		}
 		d.Froms = append(d.Froms, f)
 	}
@@ -123,6 +138,12 @@ func gen(t *rapid.T) Case {
 
 func (d TaskDef) script(id string) string {
 	var s strings.Builder
+	for _, f := range d.Froms {
+		if f.SharedGT > 0 {
+			fmt.Fprintf(&s, "var cond = lambda: \"v\" > %d\n", f.SharedGT-1)
+			break
+		}
+	}
 	for i, f := range d.Froms {
 		s.WriteString("stream|from()")
 		if f.DB != "" {
@@ -136,6 +157,12 @@ func (d TaskDef) script(id string) string {
 		}
 		if f.Where >= 0 {
 			fmt.Fprintf(&s, ".where(lambda: \"v\" > %d)", f.Where)
+		}
+		if f.SharedGT > 0 {
+			s.WriteString(".where(cond)")
+		}
+		if f.W2 > 0 {
+			fmt.Fprintf(&s, ".where(lambda: \"v\" != %d)", f.W2-1)
 		}
 		fmt.Fprintf(&s, "|log().prefix('%s.%d')\n", id, i)
 	}
@@ -179,6 +206,12 @@ func (f From) matches(w written) bool {
 		return false
 	}
 	if f.Where >= 0 && (w.noV || !(w.v > int64(f.Where))) {
+		return false
+	}
+	if f.SharedGT > 0 && (w.noV || !(w.v > int64(f.SharedGT-1))) {
+		return false
+	}
+	if f.W2 > 0 && (w.noV || w.v == int64(f.W2-1)) {
 		return false
 	}
 	return true
